@@ -150,7 +150,195 @@ def s1_class_state(prog, ctx, tag="S1"):
                         ctx.fail(tag, node, q, src(node), "mutable default argument %s is mutated: state shared by all calls" % pname)
 
 
+    default_instances(prog, ctx, tag)
+
+
+def _self_mutations(prog, clsdef):
+    """(method, node, attr) for writes to self.<attr> outside __init__ in a class and its bases."""
+    out = []
+    for name, f in prog.methods_of(clsdef, inherited=True).items():
+        if name == "__init__":
+            continue
+        for node in walk_no_nested(f):
+            if isinstance(node, (ast.Assign, ast.AugAssign)):
+                for t in (node.targets if isinstance(node, ast.Assign) else [node.target]):
+                    base = t.value if isinstance(t, ast.Subscript) else t
+                    d = dotted(base)
+                    if d and d.startswith("self.") and d.count(".") == 1:
+                        out.append((name, node, d[5:]))
+            elif isinstance(node, ast.Call) and isinstance(node.func, ast.Attribute) and node.func.attr in carried.MUTATING_METHODS:
+                d = dotted(node.func.value)
+                if d and d.startswith("self.") and d.count(".") == 1:
+                    out.append((name, node, d[5:]))
+    return out
+
+
+def default_instances(prog, ctx, tag):
+    """Instances created in a default argument live for the whole process (one per `def`), like class-level state."""
+    n = 0
+    for m, q, f in prog.all_functions():
+        args = f.args.args
+        defaults = f.args.defaults
+        names = [a.arg for a in args][len(args) - len(defaults):]
+        pairs = list(zip(names, defaults)) + [(a.arg, d) for a, d in zip(f.args.kwonlyargs, f.args.kw_defaults) if d is not None]
+        for pname, d in pairs:
+            if not isinstance(d, ast.Call):
+                continue
+            cn = (call_name(d) or "").split(".")[-1]
+            cands = prog.find_class(cn)
+            if not cands:
+                continue                      # not a program class (functools.partial, tuple(), ...): no methods of ours mutate it
+            n += 1
+            muts = [x for _m, c in cands for x in _self_mutations(prog, c)]
+            if not muts:
+                ctx.ok(tag, "%s:%d" % (m.rel, d.lineno), "default %s=%s of %s: one instance per process, but no method of %s modifies it"
+                       % (pname, src(d), q, cn))
+                continue
+            # is the default ever used? (a call that binds neither positionally nor by keyword)
+            owner = q.split(".")[0] if q.endswith(".__init__") else None
+            callee = owner or q.split(".")[-1]
+            pos = [a.arg for a in args].index(pname) - (1 if args and args[0].arg in ("self", "cls") else 0) if pname in [a.arg for a in args] else None
+            users = []
+            for m2, q2, f2 in prog.all_functions():
+                for c in walk_no_nested(f2):
+                    if isinstance(c, ast.Call) and (call_name(c) or "").split(".")[-1] == callee:
+                        if any(isinstance(a, ast.Starred) for a in c.args) or any(k.arg is None for k in c.keywords):
+                            continue
+                        bound = (pos is not None and len(c.args) > pos) or any(k.arg == pname for k in c.keywords)
+                        if not bound:
+                            users.append((m2, q2, c))
+            if not users:
+                ctx.ok(tag, "%s:%d" % (m.rel, d.lineno), "default %s=%s of %s holds state (%s.%s) but every call site passes its own object"
+                       % (pname, src(d), q, cn, muts[0][2]))
+                continue
+            u = users[0]
+            ctx.fail(tag, u[2], u[1], "%s relies on default %s=%s" % (src(u[2])[:70], pname, src(d)),
+                     "%s is evaluated once when %s is defined, so every call that omits `%s` (here in %s) shares ONE %s for the whole "
+                     "process; %s.%s modifies self.%s - what one chromosome task / experiment leaves there is seen by the next one handled "
+                     "by the same process (results depend on --threads and on task order)"
+                     % (src(d), q, pname, u[1], cn, cn, muts[0][0], muts[0][2]))
+    ctx.note("%s: %d default-argument instances of program classes examined" % (tag, n))
+
+
+IDS = "src/input_data_storage.py"
+
+
+def s2_experiment_parsing(prog, ctx):
+    """Locals of the loops that enumerate experiments (input description -> SampleData): a name assigned inside the loop must be
+    assigned in the current iteration on every path before it is read; only pure counters (x += const) may carry."""
+    from ..engine import flow
+    n = 0
+    for m, q, f in prog.all_functions():
+        if m.rel != IDS:
+            continue
+        outer = [l for l in walk_no_nested(f) if isinstance(l, ast.For) and not flow.enclosing_loops(l)]
+        for lp in outer:
+            assigned = {}
+            for st in ast.walk(lp):
+                if isinstance(st, ast.Assign):
+                    for t in st.targets:
+                        for x in ast.walk(t):
+                            if isinstance(x, ast.Name) and isinstance(x.ctx, ast.Store):
+                                assigned.setdefault(x.id, []).append(st)
+                elif isinstance(st, (ast.For, ast.comprehension)):
+                    for x in ast.walk(st.target):
+                        if isinstance(x, ast.Name):
+                            assigned.setdefault(x.id, []).append(st)
+            counters = set()
+            for st in ast.walk(lp):
+                if isinstance(st, ast.AugAssign) and isinstance(st.target, ast.Name):
+                    if isinstance(st.value, ast.Constant) and st.target.id not in assigned:
+                        counters.add(st.target.id)
+                    else:
+                        assigned.setdefault(st.target.id, []).append(st)
+            if not assigned:
+                continue
+            try:
+                bodies = flow.block_paths(lp.body, "%s loop at line %d" % (q, lp.lineno))
+            except AnalysisError:
+                raise
+            reported = set()
+            line_loop = isinstance(lp.iter, ast.Name) and any(
+                isinstance(st, ast.Assign) and any(isinstance(t, ast.Name) and t.id == lp.iter.id for t in st.targets)
+                and isinstance(st.value, ast.Call) and (call_name(st.value) or "").split(".")[-1] == "open" for st in walk_no_nested(f)) \
+                or isinstance(lp.iter, ast.Name) and any(isinstance(w, ast.With) and any(src(i.optional_vars) == lp.iter.id for i in w.items if i.optional_vars)
+                                                          for w in walk_no_nested(f))
+            carried_names = {}
+            for p in bodies:
+                have = {x.id for x in ast.walk(lp.target) if isinstance(x, ast.Name)}
+                for ev in p.events:
+                    if ev[0] == "cond":
+                        reads, node = _loads(ev[1]), ev[1]
+                        writes = set()
+                    elif ev[0] == "stmt":
+                        st = ev[1]
+                        if isinstance(st, ast.Expr) and isinstance(st.value, ast.Call) and (call_name(st.value) or "") in ("exit", "sys.exit", "os._exit", "quit"):
+                            break             # the process ends here: nothing after it on this path is executed
+                        if isinstance(st, (ast.For, ast.While)):
+                            reads, node = _loads(st.iter if isinstance(st, ast.For) else st.test), st
+                            writes = {x.id for x in ast.walk(st.target) if isinstance(x, ast.Name)} if isinstance(st, ast.For) else set()
+                        elif isinstance(st, ast.Assign):
+                            reads, node = _loads(st.value) | {x for t in st.targets if not isinstance(t, ast.Name) for x in _loads(t)}, st
+                            writes = {x.id for t in st.targets for x in ast.walk(t) if isinstance(x, ast.Name) and isinstance(x.ctx, ast.Store)}
+                        elif isinstance(st, ast.AugAssign):
+                            reads, node = _loads(st.value) | ({st.target.id} if isinstance(st.target, ast.Name) else _loads(st.target)), st
+                            writes = {st.target.id} if isinstance(st.target, ast.Name) else set()
+                        elif isinstance(st, ast.With):
+                            reads, node, writes = set(), st, set()
+                        else:
+                            reads, node, writes = _loads(st), st, set()
+                    else:
+                        continue
+                    for r in sorted(reads):
+                        if r in assigned and r not in have and r not in counters and (r, node.lineno) not in reported:
+                            reported.add((r, node.lineno))
+                            n += 1
+                            if line_loop:
+                                carried_names.setdefault(r, node)
+                                continue
+                            ctx.fail("S2", node, q, "%s read at: %s" % (r, src(node)[:80]),
+                                     "local `%s` is assigned inside the loop that enumerates experiments (%s) but on the path [%s] it is read "
+                                     "before being assigned in the current iteration: the experiment gets the value left by an earlier "
+                                     "experiment of the same run (or is undefined for the first one)"
+                                     % (r, src(assigned[r][0])[:60], p.describe()[:120]))
+                    have |= writes
+            if line_loop and carried_names:
+                # a loop over the LINES of a description file is a state machine: state is carried from line to line inside one
+                # experiment by design; it must be reset as a whole where an experiment ends (one branch assigns every carried name)
+                resets = [i for i in lp.body if isinstance(i, ast.If) and
+                          set(carried_names) <= {t.id for st in i.body if isinstance(st, ast.Assign) for t in st.targets if isinstance(t, ast.Name)}]
+                if resets:
+                    ctx.ok("S2", "%s:%d" % (IDS, resets[0].lineno), "%s: line-oriented parser; the experiment-boundary branch `if %s` re-assigns every "
+                           "carried local %s" % (q, src(resets[0].test)[:50], sorted(carried_names)))
+                else:
+                    r0 = sorted(carried_names)[0]
+                    ctx.fail("S2", carried_names[r0], q, "carried locals %s" % sorted(carried_names),
+                             "the line-oriented parser carries %s from line to line, and no branch of the loop re-assigns all of them at an "
+                             "experiment boundary: part of one experiment's description leaks into the next" % sorted(carried_names))
+            n += len(assigned)
+            ctx.ok("S2", "%s:%d" % (IDS, lp.lineno), "%s: %d locals assigned in the experiment loop are all defined in the iteration before "
+                   "use (carried by design: counters %s)" % (q, len(assigned), sorted(counters)))
+    ctx.floor("S2", "locals assigned inside experiment-enumeration loops", n, 8)
+
+
+def _loads(node):
+    out = set()
+    for x in ast.walk(node):
+        if isinstance(x, ast.Name) and isinstance(x.ctx, ast.Load):
+            out.add(x.id)
+    # names bound by comprehensions inside the expression are local to it
+    for c in ast.walk(node):
+        if isinstance(c, ast.comprehension):
+            for t in ast.walk(c.target):
+                if isinstance(t, ast.Name):
+                    out.discard(t.id)
+    return out
+
+
 def run(prog, ctx):
+    ctx.rule("S2", "in every outermost loop of src/input_data_storage.py (experiment enumeration) a local that is assigned inside the "
+                   "loop is assigned on every path of the current iteration before it is read; only `x += const` counters carry")
+    s2_experiment_parsing(prog, ctx)
     ctx.rule("S1", "loop-carried dependence over `for sample in samples: self.process_sample(sample)`: driver-object locations "
                    "(self.*, self.args.*) are linearised through inlined self-calls - a location modified in an iteration must be "
                    "plainly and unconditionally written before any read/read-modify in that iteration; class-level and module-level "
